@@ -8,7 +8,7 @@ from astlib import find_all, find_first, show, show_pat, method_chain
 from rules.common import flat, flatp, has, same
 
 EXPLANATION = (
-    "Static structural analysis (MIR data-flow facts + syntax facts of leptos_i18n_router/src/routing.rs); nothing executed. "
+    "Primary clause (R0): get_new_path and get_locale_from_path, with every helper under them, are interpreted abstractly (rules/absint.py; nothing compiled or run) over base-path forms x routes x locale pairs and compared with the URL the statement prescribes (which also decides the round trip, since the expected URL of A->B is the source of B->A). The structural clauses below are used only when the code leaves the interpreter's fragment. Static structural analysis (MIR data-flow facts + syntax facts of leptos_i18n_router/src/routing.rs); nothing executed. "
     "Decided clauses only: (R1) whole-segment rule - a string obtained from Locale::as_str is never used as the pattern of a "
     "prefix/substring operation (starts_with, contains, find, trim_*_matches, split_once) on a path; the one strip_prefix is "
     "accepted only under the guard `rest is empty or starts with '/'`; reading the locale of a URL compares a locale name "
@@ -337,7 +337,7 @@ def run(ctx):
 
 
 MANIFEST_ENTRY = {
-    "technique": "static analysis: MIR taint from Locale::as_str to the pattern argument of str prefix/substring APIs in the router crate, syntactic guard check of the one accepted strip_prefix, syn skeleton of the path assembly",
-    "level_text": "Structural, two clauses only: locale names reach path strings only through whole-segment comparisons, and the rewritten URL keeps query and fragment and omits the prefix for the default locale. The history/route-table part of the property is not applicable to static analysis and is not claimed.",
+    "technique": "static analysis: abstract evaluation (rules/absint.py) of get_new_path (with PathBuilder, localize_path, match_path_segments, construct_path_segments) and get_locale_from_path over base-path forms x route tables (params, splats, localized and locale-like static segments) x locale pairs x query / fragment, oracle = the URL built from the statement; structural MIR / syn rules as fallback",
+    "level_text": "Finite abstract evaluation: every (base path form, route, locale pair) of the universe is rewritten by the interpreted code and compared with base + new prefix + the route in the new locale + unchanged query and fragment; the expected URL of A->B is the source of B->A, so the table also decides the round trip. Reading the locale back is decided for every URL of the universe and near-miss first segments. Navigation histories on a live router are not applicable.",
     "level_note": "Trusted: leptos_router's Location. Not decided / not applicable: reversibility over switch sequences, localized segments, run-time router state.",
 }
